@@ -68,6 +68,7 @@ impl Recorder {
             }
         }
         if st.parser.is_some() { feed(&mut st, bytes, self.w); }
+        if std::env::var("VERIF_TRACE").is_ok() { eprintln!("  term {:?} {:?}", op, String::from_utf8_lossy(bytes)); }
         st.ops.push(op);
         Ok(())
     }
